@@ -473,6 +473,7 @@ class DiskCache(_CacheBase):
             for _ in range(len(files) - self.max_size):
                 oldest_file = min(files, key=lambda f: f.stat().st_ctime_ns)
                 oldest_file.unlink()
+                files.remove(oldest_file)
 
     def __contains__(self, key: Hashable) -> bool:
         """Check if a key is present in the cache."""
